@@ -7,14 +7,34 @@ semantics (`platformCreate`); the behaviour of real threads is observed by the h
 namespace Zix.C18
 open Zix.Thread Zix.Errno
 
-/-- The attribute handed to `pthread_create` is the one carrying the requested stack size — for
-every size — and it is initialised before and destroyed after. -/
+/-- The attribute handed to `pthread_create` is the one that was given the stack size — for every
+requested size — and it is initialised before and destroyed after. -/
 theorem create_passes_requested_stack (size : Nat) (ret : Int) :
-    (threadCreate size ret).1 = [.attrInit, .attrSetStackSize size, .create (some size), .attrDestroy] := rfl
+    (threadCreate size ret).1 =
+      [.attrInit, .attrSetStackSize (attrSize size), .create (some (attrSize size)), .attrDestroy] := rfl
 
-/-- Hence, under the platform's contract, the new thread's stack is at least the requested size,
-and the function runs exactly once with the given argument. -/
-theorem create_runs_once_on_requested_stack (size arg defaultStack : Nat) :
+/-- The size passed on is never below the request, and is a whole number of pages whenever rounding
+up does not wrap around (every request up to 2^64 - 4096). -/
+theorem attrSize_ge (size : Nat) : attrSize size ≥ size := by
+  unfold attrSize
+  simp only
+  split <;> omega
+
+theorem attrSize_pages (size : Nat) (h : size + pageUnit ≤ W) : attrSize size % pageUnit = 0 := by
+  unfold attrSize pageUnit W at *
+  simp only
+  split
+  · omega
+  · rename_i hlt
+    exfalso
+    apply hlt
+    rw [Nat.mod_eq_of_lt (by omega)]
+    omega
+
+/-- Hence, on a platform that rounds an attribute's size DOWN to whole pages (as glibc does), the
+new thread's stack is at least the requested size — also for requests that are not a multiple of
+the page size — and the function runs exactly once with the given argument. -/
+theorem create_runs_once_on_requested_stack (size arg defaultStack : Nat) (h : size + pageUnit ≤ W) :
     ∀ c ∈ (threadCreate size 0).1, ∀ a, c = .create a →
       (platformCreate defaultStack a arg).stack ≥ size ∧ (platformCreate defaultStack a arg).ran = 1 ∧
       (platformCreate defaultStack a arg).arg = arg := by
@@ -22,7 +42,16 @@ theorem create_runs_once_on_requested_stack (size arg defaultStack : Nat) :
   subst hca
   simp [threadCreate] at hc
   subst hc
-  simp [platformCreate]
+  have h1 := attrSize_ge size
+  have h2 := attrSize_pages size h
+  simp only [platformCreate, Option.getD_some, and_self, and_true]
+  have : attrSize size / pageUnit * pageUnit = attrSize size := by
+    unfold pageUnit at *; omega
+  omega
+
+/-- Passing the request on unrounded (as before the repair) is not enough on such a platform. -/
+theorem unrounded_request_falls_short :
+    (platformCreate 0 (some 100000) 0).stack < 100000 := by decide
 
 /-- SUCCESS is reported exactly when `pthread_create` returned 0: a thread that could not be created
 is an error. -/
@@ -32,6 +61,7 @@ theorem create_error_reported (size : Nat) (ret : Int) : (threadCreate size ret)
 theorem join_status (ret : Int) : threadJoin ret = 0 ↔ ret = 0 := by
   unfold threadJoin; split <;> simp_all
 
-example : (threadCreate 33554432 11).2 = 11 := by decide   -- EAGAIN → UNAVAILABLE
+example : (threadCreate 33554432 11).2 = 11 := by decide
+example : attrSize 100000 = 102400 ∧ attrSize 16384 = 16384 ∧ attrSize 0 = 0 := by decide   -- EAGAIN → UNAVAILABLE
 
 end Zix.C18
